@@ -471,6 +471,16 @@ def split_items(rng, nums):
             else:
                 items.append("%d%s%d" % (seg[0], rng.choice("-:"), seg[-1]))
             i += k
+    # non-canonical spellings of the same set: the named lines are a set, so an item order other than ascending and
+    # numbers named twice (overlapping ranges, a repeated single number) select the same lines, each once, in file order
+    if rng.random() < 0.4:
+        for _ in range(rng.randrange(1, 3)):
+            run = rng.choice(runs)
+            a = rng.randrange(len(run))
+            b = rng.randrange(a, len(run))
+            items.insert(rng.randrange(len(items) + 1), str(run[a]) if a == b else "%d%s%d" % (run[a], rng.choice("-:"), run[b]))
+    if rng.random() < 0.4:
+        rng.shuffle(items)
     return ",".join(items)
 
 
